@@ -714,7 +714,7 @@ class Lattice:
                 site = self.unit_cell[lat_indx[-1]]
                 dx = np.copy(lat_indx)
                 dx[-1] = 0
-                if isinstance(site, Site) and not site.leg.chinfo.trivial_shift:  # it can be None
+                if isinstance(site, Site) and not site.leg.chinfo.trivial_shift and np.any(dx != 0):
                     leg = site.leg.apply_charge_mapping(site.leg.chinfo.shift_charges, func_kwargs=dict(dx=dx))
                     site = copy.copy(site).change_charge(leg)
                 self._mps_sites_cache.append(site)
